@@ -44,14 +44,14 @@ func (kv *KV) Unmarshal(data []byte) error {
 			}
 			// Get the length
 			v, n, err := csproto.DecodeVarint(data[offset:])
-			size := int(v)
 			if err != nil {
 				return err
 			}
 			offset += n
-			if dataSize-offset < size {
+			if uint64(dataSize-offset) < v {
 				return fmt.Errorf("remaining data to short for indicated size")
 			}
+			size := int(v)
 			b := data[offset : offset+size : offset+size]
 			offset += size
 			if tag == FieldKVKey {
